@@ -80,9 +80,12 @@ where
                 ([("samples", r), ("features", c)], m.row_major_iter().collect::<Vec<T>>())
             })
         } else {
+            // the distribution's own dimension names (documented as not used by `draw`)
+            let mname = parse_names(opt_arg("mname", toks).unwrap_or("means"));
+            let cnames = parse_names(opt_arg("cnames", toks).unwrap_or("u,v"));
             let g = MultivariateGaussianTensor::new(
-                Tensor::from([("means", n)], mean.clone()),
-                Tensor::from([("u", n), ("v", n)], cov.clone()),
+                Tensor::from([(mname[0], n)], mean.clone()),
+                Tensor::from([(cnames[0], n), (cnames[1], n)], cov.clone()),
             )
             .expect("valid distribution");
             g.draw(&mut source, k, names[0], names[1]).map(|t| (t.shape(), t.iter().collect::<Vec<T>>()))
@@ -171,6 +174,40 @@ impl Runner {
                         show_elems(&samples)
                     ),
                     Ok(None) => format!("none consumed={}", source.taken),
+                }
+            }
+            "drawf" => {
+                // f64: the samples must be, bit for bit, the documented function of the consumed
+                // numbers (±inf / NaN from ln(0) included), evaluated here with the same operations
+                let parse = |t: &str| t.parse::<f64>().expect("f64");
+                let (mean, variance) = (parse(toks[2]), parse(toks[3]));
+                let k: usize = toks[4].parse().expect("k");
+                let src: Vec<f64> = split_comma(toks[5]).iter().map(|t| parse(t)).collect();
+                let mut source = CountingSource::new(src.clone());
+                let r = catch(|| Gaussian::new(mean, variance).draw(&mut source, k));
+                match r {
+                    Err(kind) => panic_str(kind),
+                    Ok(None) => format!("none consumed={}", source.taken),
+                    Ok(Some(samples)) => {
+                        let sd = variance.sqrt();
+                        let two = 1.0f64 + 1.0;
+                        let two_pi = two * std::f64::consts::PI;
+                        let want: Vec<f64> = (0..samples.len())
+                            .map(|i| {
+                                let (u, v) = (src[2 * (i / 2)], src[2 * (i / 2) + 1]);
+                                let radius = (-two * u.ln()).sqrt();
+                                let z = if i % 2 == 0 { radius * (two_pi * v).cos() } else { radius * (two_pi * v).sin() };
+                                z * sd + mean
+                            })
+                            .collect();
+                        let same = samples.iter().zip(want.iter()).all(|(a, b)| a.to_bits() == b.to_bits());
+                        format!(
+                            "some n={} consumed={} samples={}",
+                            samples.len(),
+                            source.taken,
+                            if same { "ok".to_string() } else { format!("bad(got={:?},want={:?})", samples, want) }
+                        )
+                    }
                 }
             }
             "mv" => {
@@ -271,6 +308,27 @@ fn covariance(g: &mut Gen, n: usize, want_pd: bool) -> Vec<Fp> {
             return a;
         }
     }
+}
+
+/// every way the five name slots (mean, covariance 0, covariance 1, samples argument, features
+/// argument) can be equal / unequal to one another, as block indices, with the two covariance
+/// names distinct
+fn equality_patterns() -> Vec<[usize; 5]> {
+    fn go(slot: usize, blocks: usize, cur: &mut [usize; 5], out: &mut Vec<[usize; 5]>) {
+        if slot == 5 {
+            if cur[1] != cur[2] {
+                out.push(*cur);
+            }
+            return;
+        }
+        for b in 0..=blocks {
+            cur[slot] = b;
+            go(slot + 1, if b == blocks { blocks + 1 } else { blocks }, cur, out);
+        }
+    }
+    let mut out = vec![];
+    go(0, 0, &mut [0; 5], &mut out);
+    out
 }
 
 /// L·Lᵀ over the rationals
@@ -530,6 +588,123 @@ pub fn gen(g: &mut Gen) {
             }
             g.count(&format!("top-of-range.mv.N=5.samples={}", samples));
         }
+    }
+
+    // ---- special values in the source: exact zeros, ones, duplicates, all-equal ----------------------
+    // (a zero in a `u` position makes ln(0): it must still be consumed as the pair's first number)
+    let special_k = if g.thorough { 9 } else { 7 };
+    for k in 0..=special_k {
+        let need = 2 * ((k + 1) / 2);
+        for len in 0..=(k + 2) {
+            // an exact zero at every position of the source
+            for at in 0..len {
+                let mut src = fps(g, len);
+                src[at] = Fp(0);
+                let (p0, p1) = (rand_fp(g), rand_fp(g));
+                g.op(format!("@ draw {} {} {} {}", p0, p1, k, show_elems(&src)));
+                g.count(if at % 2 == 0 { "draw.fp.zero-in-u-position" } else { "draw.fp.zero-in-v-position" });
+            }
+            if len > 0 {
+                let (p0, p1) = (rand_fp(g), rand_fp(g));
+                let x = rand_fp(g);
+                for (label, value) in [("all-zero", Fp(0)), ("all-one", Fp(1)), ("all-equal", x)] {
+                    g.op(format!("@ draw {} {} {} {}", p0, p1, k, show_elems(&vec![value.clone(); len])));
+                    g.count(&format!("draw.fp.{}", label));
+                }
+            }
+        }
+        // f64, sources of exactly sufficient length and one more / one less
+        for len in [need, need + 1, need.saturating_sub(1)] {
+            let values = [0.0f64, -0.0, 1.0, 0.375, 0.5, 0.25, 0.75, 0.9990234375];
+            for at in 0..len.max(1) {
+                for special in [0.0f64, -0.0, 1.0] {
+                    let mut src: Vec<f64> = (0..len).map(|_| values[3 + g.rng.below(5)]).collect();
+                    if at < len {
+                        src[at] = special;
+                    }
+                    let (mean, variance) = (*g.rng.pick(&[0.0, -1.5, 2.0]), *g.rng.pick(&[1.0, 4.0, 0.25]));
+                    let shown = if src.is_empty() { "-".to_string() } else { src.iter().map(|x| format!("{:?}", x)).collect::<Vec<_>>().join(",") };
+                    g.op(format!("@ drawf {:?} {:?} {} {}", mean, variance, k, shown));
+                    g.count(&format!("draw.f64.special={:?}", special));
+                }
+            }
+            if len > 0 {
+                for value in [0.0f64, 1.0, 0.375] {
+                    let shown = vec![format!("{:?}", value); len].join(",");
+                    g.op(format!("@ drawf 0.0 1.0 {} {}", k, shown));
+                    g.count("draw.f64.all-equal");
+                }
+            }
+        }
+    }
+    // multivariate draws whose source contains exact zeros (every position of the first row and
+    // some later ones), of exactly sufficient length
+    for n in 1..=3usize {
+        let need = 2 * ((n + 1) / 2);
+        for k in 1..=2usize {
+            let mean = fps(g, n);
+            let cov = covariance(g, n, true);
+            for at in 0..(k * need) {
+                let mut src = fps(g, k * need);
+                src[at] = Fp(0);
+                for via in ["matrix", "tensor"] {
+                    g.op(format!(
+                        "@ mv {} {} mean={} cov={} src={} names=samples,features via={}",
+                        n, k, show_elems(&mean), show_elems(&cov), show_elems(&src), via
+                    ));
+                }
+                g.count("mv.fp.zero-in-source");
+            }
+            let src = vec![Fp(0); k * need];
+            g.op(format!(
+                "@ mv {} {} mean={} cov={} src={} names=samples,features via=tensor",
+                n, k, show_elems(&mean), show_elems(&cov), show_elems(&src)
+            ));
+            g.count("mv.fp.all-zero-source");
+        }
+    }
+
+    // ---- adversarial dimension names -------------------------------------------------------------
+    // the mean's name, the covariance's two names and the two arguments of `draw`, in every pattern
+    // of being equal / unequal to one another (the covariance's names are distinct by construction
+    // of a tensor); only equal draw arguments are rejected, all other patterns give the samples
+    let patterns = equality_patterns();
+    for pattern in &patterns {
+        for _ in 0..(if g.thorough { 4 } else { 2 }) {
+            let pool = adversarial_names(&mut g.rng, 5);
+            let name = |slot: usize| pool[pattern[slot]];
+            let n = g.rng.range(1, 2);
+            let need = 2 * ((n + 1) / 2);
+            let mean = fps(g, n);
+            let cov = covariance(g, n, true);
+            let src = fps(g, need);
+            g.op(format!(
+                "@ mv {} 1 mean={} cov={} src={} names={},{} via=tensor mname={} cnames={},{}",
+                n, show_elems(&mean), show_elems(&cov), show_elems(&src),
+                name(3), name(4), name(0), name(1), name(2)
+            ));
+            g.count(if pattern[3] == pattern[4] { "mv.names.equal-draw-arguments" } else { "mv.names.adversarial-valid" });
+            if pattern[0] == pattern[4] {
+                g.count("mv.names.mean-named-like-features-argument");
+            }
+        }
+    }
+    // the internal names themselves
+    for (mname, cnames, names) in [
+        ("features", ["u", "v"], ["samples", "features"]),
+        ("samples", ["samples", "features"], ["samples", "features"]),
+        ("x", ["y", "x"], ["y", "x"]),
+        ("row", ["row", "column"], ["column", "row"]),
+        ("_empty_", ["_empty_", "r"], ["r", "_empty_"]),
+    ] {
+        let mean = fps(g, 2);
+        let cov = covariance(g, 2, true);
+        let src = fps(g, 4);
+        g.op(format!(
+            "@ mv 2 2 mean={} cov={} src={} names={},{} via=tensor mname={} cnames={},{}",
+            show_elems(&mean), show_elems(&cov), show_elems(&src), names[0], names[1], mname, cnames[0], cnames[1]
+        ));
+        g.count("mv.names.internal");
     }
 
     // ---- constructor validation -------------------------------------------------------------------
